@@ -413,6 +413,11 @@ func main() {
 			fmt.Fprintln(os.Stderr, err)
 			os.Exit(2)
 		}
+		if c.Note == "chanfacts" {
+			checkChanFacts(run)
+			run.Finish(nil)
+			return
+		}
 		res := pa.exec(&c)
 		fmt.Printf("replay: ok=%v kind=%q oracle=%q finding=%q\n  what: %s\n", res.OK, res.Kind, res.Oracle, res.FindingKey, res.What)
 		if len(c.Tree) > 0 {
@@ -442,6 +447,7 @@ func main() {
 	if run.ModelPath == "" {
 		run.Note("no model driver: oracles only")
 	}
+	checkChanFacts(run)
 	for _, f := range run.CorpusFiles() {
 		if pa.enough() {
 			break
@@ -484,6 +490,40 @@ func main() {
 		pa.record(c, pa.exec(&c), false)
 	}
 	run.CountN("family:wide", len(wc))
+	// cancellation of the request's context while background work is in flight
+	cx := cancelMatrix(procs)
+	for _, c := range cx {
+		if pa.enough() {
+			break
+		}
+		c := c
+		pa.record(c, pa.exec(&c), true)
+	}
+	run.CountN("family:cancel-matrix", len(cx))
+	nCancel := run.Scale(500, 8000)
+	for i := 0; i < nCancel && !pa.enough(); i++ {
+		cr := rnd.Fork()
+		var c Case
+		switch cr.Intn(5) {
+		case 0:
+			c = connCase(cr)
+		case 1:
+			c = abandonCase(cr)
+		case 2:
+			c = nestedCase(cr)
+		default:
+			c = randomCase(cr)
+		}
+		if i%8 == 7 {
+			c = wsCase(cr) // graphql-ws: the handler's context is cancelled when the connection goes away
+		}
+		c = withCancel(cr, c)
+		pa.record(c, pa.exec(&c), true)
+		if i < 1 {
+			run.Sample(c)
+		}
+	}
+	run.CountN("family:cancel", nCancel)
 	// apifu's built-in node / nodes fields
 	nm := nodeMatrix(procs)
 	for _, c := range nm {
